@@ -63,6 +63,11 @@ func c07Ops() []c07Op {
 	ops = append(ops, c07Op{"accrue(1d)", "accrue", "", 86400}, c07Op{"repay(half)", "repay", "", 2}, c07Op{"repay(all)", "repay", "", 1})
 	// the module's real BeginBlocker (epoch snapshot of interest rate and redemption rate)
 	ops = append(ops, c07Op{"next_blocks(2)", "blocks", "", 2})
+	// a chain upgrade: the store migration the module registers for its previous consensus version, run the
+	// way the upgrade handler runs it (module manager, version map with this module one version back). The
+	// migration registered in this version reads no legacy-format state, so every state reachable here is also a
+	// valid state of the previous version
+	ops = append(ops, c07Op{"upgrade(stablestake_prev_version)", "upgrade", "", 0})
 	return ops
 }
 
@@ -248,6 +253,18 @@ func (r *c07Run) apply(ctx sdk.Context, op c07Op, path []string) {
 		r.st.Clauses["gov_update_params"]++
 		if !post.tv.Equal(pre.tv) {
 			bad("gov_params_update_moved_vault_value", "", fmt.Sprintf("%s changed TotalValue %s -> %s", op.Name, pre.tv, post.tv))
+		}
+		r.others(pre, post, op, allow, bad)
+	case "upgrade":
+		c, write := ctx.CacheContext()
+		if err := runModuleUpgrade(r.w, c, sstypes.ModuleName); err != nil {
+			return
+		}
+		write()
+		post := r.observe(ctx)
+		r.st.Clauses["upgrade_migration"]++
+		if !post.tv.Equal(pre.tv) || !post.supply.Equal(pre.supply) {
+			bad("upgrade_moved_vault_value_or_supply", "", fmt.Sprintf("%s changed TotalValue %s -> %s, supply %s -> %s", op.Name, pre.tv, post.tv, pre.supply, post.supply))
 		}
 		r.others(pre, post, op, allow, bad)
 	case "begin":
